@@ -15,8 +15,8 @@ CLAIMED = {
             'DESIGN.md 4 C03'),
     'C01': ('exploration',
             'deterministic simulation, in situ: residual oracle (existential in the ridge) on every root the simulated optimizer installs under gradient faults',
-            'Restricted reach: the property quantifies over all PSD matrices, which simulation cannot do. What is decided is that every root accepted by the gate during seeded, faulted histories (Newton/eigh, exponents 1-8, ridge 0..1e-1 relative/absolute, padded sharded stacks, x64 on/off, 1x1..10x10 statistics incl. singular/rank-deficient/overflow-scaled ones) is finite, symmetric, zero on padding, satisfies ||X^p(S+dI)-I||_max <= reported error + 20 n p kappa u for some admissible ridge d, and that the reported eigenvalue estimate does not exceed lambda_max.',
-            'Only matrices reachable from simulated gradient histories; LOBPCG deflation and direct float64 calls are not decided; vacuous evaluations (singular, kappa>1e8, slack>0.05) are counted separately in the evidence.',
+            'Restricted reach: the property quantifies over all PSD matrices, which simulation cannot do. What is decided is that every root accepted by the gate during seeded, faulted histories (Newton/eigh/LOBPCG-deflated Newton, exponents 1-8, ridge 0..1e-1 relative/absolute, padded sharded stacks, x64 on/off, 1x1..10x10 statistics incl. singular/rank-deficient/overflow-scaled ones) is finite, symmetric, zero on padding, satisfies ||X^p(S+dI)-I||_max <= reported error + 20 n p kappa u for some admissible ridge d, and that the reported eigenvalue estimate does not exceed lambda_max.',
+            'Only matrices reachable from simulated gradient histories; direct float64 calls are not decided, LOBPCG deflation only for k in {1,2} on 12..16-dimensional statistics; vacuous evaluations (singular, kappa>1e8, slack>0.05) are counted separately in the evidence.',
             'DESIGN.md 5 C01'),
     'C02': ('exploration',
             'deterministic simulation: one-step refinement of the real update against an independent float64 reference model over seeded configs, trees and (faulted) histories',
